@@ -75,7 +75,7 @@ def run(tier, corrupt=0):
             clone["expr"] = more_exprs[(j + c.seed) % len(more_exprs)]
             zones = ["naive", "UTC", "America/New_York"] + ([r["tz"]] if r["tz"] != "none" else [])
             year = 2024 + (j * 7 + c.seed) % 12
-            rnd = "%d-%02d-%02dT%02d:%02d:00" % (year, 1 + (j * 5) % 12, 1 + (j * 11) % 28, (j * 13) % 24, (j * 17) % 60)
+            rnd = "%d-%02d-%02dT%02d:%02d:00" % (year, 1 + (j * 5) % 12, 1 + (j * 11) % 28, 5 + (j * 13) % 19, (j * 17) % 60)      # never in the small hours, where clocks change
             clone["datetimes"] = [{"wall": w, "tz": z} for w in [more_walls[j % len(more_walls)], more_walls[(j + 3) % len(more_walls)], rnd]
                                   for z in zones if not (w.startswith("2031-11-02") and z != "UTC")]
             cases.append(clone)
